@@ -101,8 +101,13 @@ var extraFuncs = [][2]string{
 
 func main() {
 	dir := "/repo"
-	if len(os.Args) > 1 {
-		dir = os.Args[1]
+	orch := false
+	args := os.Args[1:]
+	if len(args) > 0 && args[0] == "-orch" { // the orchestration functions (orch*.go) -> lean/Bmc/Gen/Orch.lean
+		orch, args = true, args[1:]
+	}
+	if len(args) > 0 {
+		dir = args[0]
 	}
 	cfg := &packages.Config{Mode: packages.LoadAllSyntax, Dir: dir, Env: append(os.Environ(), "GOFLAGS=-mod=mod", "GOPROXY=off")}
 	pkgs, err := packages.Load(cfg, ".", "./pkg/ipmi", "./pkg/dcmi")
@@ -140,31 +145,12 @@ func main() {
 		}
 	})
 	sort.Slice(g.modPkgs, func(i, j int) bool { return g.modPkgs[i].PkgPath < g.modPkgs[j].PkgPath })
-
-	// the layers: every `func (x *T) DecodeFromBytes(data []byte, df gopacket.DecodeFeedback) error`
-	var layers []layer
-	for fn, src := range g.funcs {
-		if fn.Name() != "DecodeFromBytes" || src.decl.Recv == nil {
-			continue
-		}
-		path := src.pkg.PkgPath
-		if path != "github.com/gebn/bmc/pkg/ipmi" && path != "github.com/gebn/bmc/pkg/dcmi" {
-			continue
-		}
-		if strings.HasSuffix(src.pkg.Fset.Position(src.decl.Pos()).Filename, "_test.go") {
-			continue
-		}
-		sig := fn.Type().(*types.Signature)
-		ptr, ok := sig.Recv().Type().(*types.Pointer)
-		if !ok || sig.Params().Len() != 2 || sig.Results().Len() != 1 {
-			continue
-		}
-		named, ok := ptr.Elem().(*types.Named)
-		if !ok {
-			continue
-		}
-		layers = append(layers, layer{path[strings.LastIndex(path, "/")+1:], named, fn, src, false})
+	if orch {
+		orchMain(g)
+		return
 	}
+
+	layers := findLayers(g)
 	for _, ef := range extraFuncs {
 		found := false
 		for fn, src := range g.funcs {
@@ -238,6 +224,34 @@ func main() {
 	out.WriteString("def gaveUp : List String := [" + quoteJoin(gaveUpList) + "]\n")
 	out.WriteString("\nend Bmc.Gen.Dec\n")
 	fmt.Print(out.String())
+}
+
+// findLayers: every `func (x *T) DecodeFromBytes(data []byte, df gopacket.DecodeFeedback) error` of pkg/ipmi and pkg/dcmi
+func findLayers(g *gen) []layer {
+	var layers []layer
+	for fn, src := range g.funcs {
+		if fn.Name() != "DecodeFromBytes" || src.decl.Recv == nil {
+			continue
+		}
+		path := src.pkg.PkgPath
+		if path != "github.com/gebn/bmc/pkg/ipmi" && path != "github.com/gebn/bmc/pkg/dcmi" {
+			continue
+		}
+		if strings.HasSuffix(src.pkg.Fset.Position(src.decl.Pos()).Filename, "_test.go") {
+			continue
+		}
+		sig := fn.Type().(*types.Signature)
+		ptr, ok := sig.Recv().Type().(*types.Pointer)
+		if !ok || sig.Params().Len() != 2 || sig.Results().Len() != 1 {
+			continue
+		}
+		named, ok := ptr.Elem().(*types.Named)
+		if !ok {
+			continue
+		}
+		layers = append(layers, layer{path[strings.LastIndex(path, "/")+1:], named, fn, src, false})
+	}
+	return layers
 }
 
 func quoteJoin(l []string) string {
